@@ -602,7 +602,10 @@ def g_lambda(R, tier):
         R.check(f"{nm}/defaults-left-to-right-then-the-body/{sig}", got == exp, f"asked {got}, expected {exp}")
         shadow_ok = all((stack == [pend]) == (t == "body") and (t == "body" or stack == []) for t, stack, _ in v["asked"]) and v["after"] == []
         R.check(f"{nm}/parameters-shadow-in-the-body-only/{sig}", shadow_ok, repr([(t, st) for t, st, _ in v["asked"]]),
-                replay=dict(kind="src", src="def f(x):\n    def g():\n        return x\n    h = lambda x: x + 1\n    k = lambda y=x: y\n    x = 7\n    return h(10), k(), g()\nr = f(1)\n", expect="same-globals"))
+                replay=dict(kind="src", src="def f(x):\n    def g():\n        return x\n    h = lambda x: x + 1\n    k = lambda y=x: y\n    x = 7\n    return h(10), k(), g()\nr = f(1)\n"
+                                                 "def f2(x, factor):\n    def g():\n        nonlocal factor\n        factor = factor * 2\n        return x\n    g()\n"
+                                                 "    s = lambda v, factor=factor: v * factor\n    t = lambda *, x=x: x\n    return s(2), t(), factor\nr2 = f2(1, 30)\n"
+                                                 "class K:\n    w = 3\n    u = lambda q, w=w: q + w\nr3 = K.u(1)\n", expect="same-globals"))
         # every parameter name is a shadowing name
         names = pend.target_names
         want_names = set()
@@ -909,9 +912,13 @@ def g_seeding(R, tier):
 
     def run(c):
         m = Machine(stubs=stubs())
-        node = ast.FunctionDef(name="f", args=ast.arguments(posonlyargs=[], args=[], kwonlyargs=[], kw_defaults=[], defaults=[]),
+        # def f(p, a, c, *b, k, **d): a, b, d captured by inner scopes (every parameter kind
+        # can be), p, c, k not; `loc` is a captured plain local
+        A = lambda n: ast.arg(arg=n, annotation=None)
+        node = ast.FunctionDef(name="f", args=ast.arguments(posonlyargs=[A("p")], args=[A("a"), A("c")], vararg=A("b"), kwonlyargs=[A("k")], kw_defaults=[None],
+                                                            kwarg=A("d"), defaults=[]),
                                body=[], decorator_list=[], returns=None, lineno=7, col_offset=0)
-        inner = c07.mk_function_nsp(node, inner_nonlocal_names={"a", "b", "loc"}, nonlocal_parameters={"a", "b"})
+        inner = c07.mk_function_nsp(node, inner_nonlocal_names={"a", "b", "d", "loc"}, nonlocal_parameters={"a", "b", "d"})
         outer = CL.mk_nsp("outer", inner_nsp=[inner])
         self_ = CL.mk_pending(pn.PendingFunctionDef, node, outer, CL.mk_global(), m=m)
         self_.converted_body = [CL.seg("BODY", lambda t: CL.absnode(("R", t), ("R", tagstr(t))))]
@@ -931,7 +938,7 @@ def g_seeding(R, tier):
         if ok:
             d = elts[idx[0]].value
             pairs = sorted((k.value, getattr(v, "id", None)) for k, v in zip(d.keys, d.values)) if isinstance(d, ast.Dict) else None
-            R.check(base + "/seeding/exactly-the-captured-parameters-are-copied-in", pairs == [("a", "a"), ("b", "b")], repr(pairs))
+            R.check(base + "/seeding/exactly-the-captured-parameters-are-copied-in", pairs == [("a", "a"), ("b", "b"), ("d", "d")], repr(pairs), replay=dict(kind="scope"))
 
 
 def g_for_target(R, tier):
